@@ -2,6 +2,7 @@ package location
 
 import (
 	"regexp"
+	"unicode/utf8"
 
 	"github.com/graphql-go/graphql/language/source"
 )
@@ -17,6 +18,7 @@ func GetLocation(s *source.Source, position int) SourceLocation {
 		body = s.Body
 	}
 	line := 1
+	lineStart := 0
 	column := position + 1
 	lineRegexp := regexp.MustCompile("\r\n|[\n\r]")
 	matches := lineRegexp.FindAllIndex(body, -1)
@@ -26,10 +28,15 @@ func GetLocation(s *source.Source, position int) SourceLocation {
 			line++
 			l := len(s.Body[match[0]:match[1]])
 			column = position + 1 - (matchIndex + l)
+			lineStart = matchIndex + l
 			continue
 		} else {
 			break
 		}
+	}
+	// position is a byte offset; the column counts code points
+	if position <= len(body) && lineStart <= position {
+		column = utf8.RuneCount(body[lineStart:position]) + 1
 	}
 	return SourceLocation{Line: line, Column: column}
 }
